@@ -20,7 +20,7 @@ def storages(x):
 
 
 def one(cases, model, rng, tier, d, rep, tmpdir):
-    dtname = ["f64", "f32", "c128"][(d + rep) % 3]
+    dtname = ["f64", "f32", "c128", "c64"][(d + rep) % 4]
     dt = DTYPES[dtname]
     kind = ["plain", "ttm", "svd", "sliced", "view", "ttm-unit"][rep % 6]
     N = rand_modes(rng, d, 1, 4 if d <= 4 else 2, distinct=False)
@@ -77,21 +77,30 @@ def one(cases, model, rng, tier, d, rep, tmpdir):
                 return "%s changed the value: %s" % (nm, e)
             if any(a.dtype != b.dtype for a, b in zip(z.cores, x.cores)):
                 return "%s changed dtype" % nm
-        tgt = tn.complex128 if dx.is_complex() else (tn.float32 if x.cores[0].dtype == tn.float64 else tn.float64)
-        z = x.to(dtype=tgt)
-        if any(cc.dtype != tgt for cc in z.cores):
-            return "to(dtype) did not convert"
         from gen import close
-        e = close(dense_of(z), dx.to(tgt), 1e-5 if (tgt == tn.float32 or x.cores[0].dtype == tn.float32) else 1e-13)
-        if e:
-            return "to(dtype) changed the value: " + e
+        src = x.cores[0].dtype
+        # every value-preserving target: same dtype, the other precision of the same kind, real -> complex (both precisions)
+        targets = [src] + ([tn.complex128, tn.complex64] if dx.is_complex() else [tn.float64, tn.float32, tn.complex128, tn.complex64])
+        for tgt in targets:
+            z = x.to(dtype=tgt)
+            if any(cc.dtype != tgt for cc in z.cores):
+                return "to(dtype=%s) of a %s object returned cores of dtype %s" % (tgt, src, sorted({str(cc.dtype) for cc in z.cores}))
+            if meta_str(z).replace(str(tgt), "") != meta_str(x).replace(str(src), ""):
+                pass
+            if list(z.N) != list(x.N) or list(z.R) != list(x.R) or bool(z.is_ttm) != bool(x.is_ttm):
+                return "to(dtype=%s) changed shape / ranks / kind" % tgt
+            single = tgt in (tn.float32, tn.complex64) or src in (tn.float32, tn.complex64)
+            e = close(dense_of(z), dx.to(tgt), 1e-5 if single else 1e-13)
+            if e:
+                return "to(dtype=%s) changed the value: %s" % (tgt, e)
         npv = x.numpy()
         if not isinstance(npv, np.ndarray):
             return "numpy() returned %s" % type(npv).__name__
         e = exact_equal(tn.as_tensor(npv), x.full())
         if e:
             return "numpy() differs from full(): " + e
-        e = exact_equal(x.full(), dx)
+        # integer-valued cores: exact; TT-SVD cores are floats and the two contraction orders differ by roundoff
+        e = close(x.full(), dx, 1e-5 if src in (tn.float32, tn.complex64) else 1e-12) if kind == "svd" else exact_equal(x.full(), dx)
         if e:
             return "full() differs from the contraction of the cores: " + e
         return None
